@@ -274,6 +274,18 @@ func (e *Encoder) marshalAttr(start *StartElement, name Name, val fakereflect.Ty
 
 	// Walk slices.
 	if isSlice(val) && !isByteSlice(val) {
+		// Slice types can be self-referential (type S []S); the element type of such a slice can never
+		// be marshaled, but walking it would not terminate.
+		seen := map[types.Type]struct{}{}
+		for elem := val; isSlice(elem) && !isByteSlice(elem); elem = elem.Elem() {
+			if _, ok := seen[elem.Type]; ok {
+				return &UnsupportedTypeError{val.Type, stack}
+			}
+			seen[elem.Type] = struct{}{}
+			if elem.Elem().IsPtr() {
+				break
+			}
+		}
 		if err := e.marshalAttr(start, name, val.Elem(), stack+"[0]"); err != nil {
 			return err
 		}
@@ -303,7 +315,13 @@ func (e *Encoder) marshalSimple(val fakereflect.TypeAndCanAddr, stack string) er
 }
 
 func indirect(vf fakereflect.TypeAndCanAddr) fakereflect.TypeAndCanAddr {
+	// Pointer types can be self-referential (type P *P); don't follow them forever.
+	seen := map[fakereflect.TypeAndCanAddr]struct{}{}
 	for vf.IsPtr() {
+		if _, ok := seen[vf]; ok {
+			break
+		}
+		seen[vf] = struct{}{}
 		vf = vf.Elem()
 	}
 	return vf
